@@ -333,7 +333,10 @@ func init() {
 		p := &cell
 		x, ok := a[0].(int64)
 		if !ok {
-			panic(engineLimit{"big.NewInt of symbolic value (version name from a symbolic creation time)"})
+			// the creation-time part of a version name for a symbolic creation
+			// time: a placeholder; the content hash keeps names distinct
+			bigInts[p] = nil
+			return p
 		}
 		bigInts[p] = big.NewInt(x)
 		return p
@@ -343,7 +346,13 @@ func init() {
 		bigInts[p] = new(big.Int).SetBytes(goBytes(a[1]))
 		return p
 	}
-	H["(*math/big.Int).Text"] = func(fr *frame, a []value) value { return bigInts[a[0].(*value)].Text(a[1].(int)) }
+	H["(*math/big.Int).Text"] = func(fr *frame, a []value) value {
+		b := bigInts[a[0].(*value)]
+		if b == nil {
+			return "symtim"
+		}
+		return b.Text(a[1].(int))
+	}
 	H["hash/crc64.MakeTable"] = func(fr *frame, a []value) value { return (*value)(nil) }
 	// crc64 of key bytes (mast's layer hash for TEXT/BLOB/REAL keys): an
 	// uninterpreted function of the content, injective naming as above.
@@ -376,7 +385,13 @@ func init() {
 		var cell value = structure{a[0], a[1], a[2]}
 		return iface{types.NewPointer(t), &cell}
 	}
-	H["context.WithDeadline"] = func(fr *frame, a []value) value { return tuple{a[0], (*ssa.Function)(nil)} }
+	// a deadline is carried as a context value under the key "verif.deadline"
+	// so that harnesses can see which deadline a statement ran under
+	H["context.WithDeadline"] = func(fr *frame, a []value) value {
+		t := fr.i.prog.ImportedPackage("context").Type("valueCtx").Object().Type()
+		var cell value = structure{a[0], iface{types.Typ[types.String], "verif.deadline"}, iface{fr.i.prog.ImportedPackage("time").Type("Time").Object().Type(), a[1]}}
+		return tuple{iface{types.NewPointer(t), &cell}, (*ssa.Function)(nil)}
+	}
 	H["context.WithCancel"] = func(fr *frame, a []value) value { return tuple{a[0], (*ssa.Function)(nil)} }
 	H["context.WithTimeout"] = func(fr *frame, a []value) value { return tuple{a[0], (*ssa.Function)(nil)} }
 	H["strconv.FormatInt"] = func(fr *frame, a []value) value {
@@ -533,6 +548,9 @@ func init() {
 	H["(time.Time).Format"] = func(fr *frame, a []value) value {
 		e, ok := ext(a[0]).(int64)
 		if !ok {
+			if txt, ok := parsedTimes[ext(a[0]).(sym).term]; ok {
+				return txt
+			}
 			return "<time>"
 		}
 		return fmt.Sprintf("T%d", e+zeroUnixNano)
@@ -551,6 +569,21 @@ func init() {
 		return mkTime(symOrBin(token.SUB, sym{types.Int64, n}, zeroUnixNano))
 	}
 	H["time.Since"] = func(fr *frame, a []value) value { return int64(0) }
+	// time.Parse("@name") is a fresh symbolic instant inside the time range
+	// (the same name gives the same instant); any other text is a parse error.
+	// Format is its inverse on those instants.
+	H["time.Parse"] = func(fr *frame, a []value) value {
+		txt, ok := a[1].(string)
+		if !ok || !strings.HasPrefix(txt, "@") || len(txt) < 2 {
+			return tuple{mkTime(int64(0)), hostErr(fr, "parsing time: cannot parse")}
+		}
+		n := "v_parsed_" + txt[1:]
+		X.decl(n, "(_ BitVec 64)")
+		X.assertPC("(and (bvsgt " + n + " (_ bv0 64)) (bvslt " + n + " (_ bv4611686018427387904 64)))")
+		t := symOrBin(token.SUB, sym{types.Int64, n}, zeroUnixNano)
+		parsedTimes[t.(sym).term] = txt
+		return tuple{mkTime(t), iface{}}
+	}
 	const dp = "google.golang.org/protobuf/types/known/durationpb"
 	H[dp+".New"] = func(fr *frame, a []value) value {
 		T := fr.i.prog.ImportedPackage(dp).Type("Duration").Object().Type()
@@ -568,6 +601,7 @@ func init() {
 }
 
 var durField = -1
+var parsedTimes = map[string]string{}
 
 // shuffleIdentity: rand.Shuffle leaves the order alone (used by harness
 // oracles whose result must not depend on it; the code under test's own
@@ -635,6 +669,8 @@ var modelledPkgs = map[string]bool{
 
 // functions of modelled packages that are plain enough to interpret as they are
 var modelledAllow = map[string]bool{
+	"(go.riyazali.net/sqlite.ErrorCode).Error":  true,
+	"(go.riyazali.net/sqlite.ErrorCode).String": true,
 	"(time.Duration).Nanoseconds": true,
 	"(*sync.Mutex).TryLock":       false,
 }
